@@ -10,5 +10,6 @@ STUBS = [
     "`int in <symbolic bytes>` compares element by element (stock CrossHair realises the whole byte string)",
     "pack/unpack memo: int.from_bytes(x.to_bytes(n, order, signed=s), order, signed=s) returns x itself when the very same byte terms come back with the same order and signedness (otherwise the stock byte-wise model is used, so width/signedness mismatches between writer and reader are still modelled)",
     "bytes.ljust on symbolic bytes pads symbolically (stock CrossHair realises the value)",
+    "module-global `str` shadowed in rv.controller so that str(<exception carrying symbolic ints>) (only used for a log line in WarnOnlyRange.validate) returns a placeholder",
     "text inputs exclude NUL and lone surrogates (C strings, UTF-8)",
 ]
